@@ -26,6 +26,8 @@ def gen_cfg(rng, profile="faithful"):
                 nd["form"] = "value"
         if k in ("fn", "fnerr") and rng.chance(0.3):
             nd["name_style"] = rng.choice(["Provide", "Make"])      # harmless for plain providers
+        if k == "struct" and nd.get("form", "ptr") == "ptr" and rng.chance(0.35):
+            nd["helper"] = True                # a provider next to the Struct that takes the struct by value and is not needed by the injector
         if k == "bind" and rng.chance(0.35):
             nd["second_iface"] = True          # a second interface J<i> bound to the same implementation; the consumer takes both
         if nodes[parent]["kind"] == "struct":
@@ -139,6 +141,9 @@ def render(cfg, pkgname):
                 src.append('func NewT%d(s string, n int) *T%d { rt.Enter("DecoyNewT%d"); return &T%d{t: "DECOY%d"} }' % (i, i, i, i, i))
         if nd["kind"] == "ivalue":
             src.append('var iv%d = &T%d{t: "IV%d"}' % (i, i, i))
+        if nd.get("helper"):
+            src.append("type H%d struct{}" % i)
+            src.append('func HelpT%d(v T%d) *H%d { rt.Enter("HelpT%d"); return &H%d{} }' % (i, i, i, i, i))
     files = {"types.go": "\n".join(src) + "\n"}
     # ---- wire items
     def item(nd):
@@ -153,9 +158,10 @@ def render(cfg, pkgname):
         if k == "ivalue":
             return ["wire.InterfaceValue(new(I%d), iv%d)" % (i, i)]
         if k == "struct":
+            extra = ["HelpT%d" % i] if (nd.get("helper") and cfg["set_layout"] != 0) else []
             if not nd["deps"] or cfg["set_layout"] % 2 == 0:
-                return ['wire.Struct(new(T%d), "*")' % i]
-            return ["wire.Struct(new(T%d), %s)" % (i, ", ".join('"F%d"' % d for d in nd["deps"]))]
+                return ['wire.Struct(new(T%d), "*")' % i] + extra
+            return ["wire.Struct(new(T%d), %s)" % (i, ", ".join('"F%d"' % d for d in nd["deps"]))] + extra
         return []
     items = []
     tail = []
@@ -261,7 +267,7 @@ def expected_term(cfg, root=0):
 def describe(cfg):
     N = cfg["nodes"]
     return " ".join("%d:%s%s%s(%s)" % (nd["id"], nd["kind"], "" if nd["name_style"] == "New" else "/" + nd["name_style"],
-                                        ("/value" if nd.get("form") == "value" else "") + ("/apart" if nd.get("apart") else "") + ("/2ifaces" if nd.get("second_iface") else ""), ",".join(map(str, nd["deps"]))) for nd in N) + \
+                                        ("/value" if nd.get("form") == "value" else "") + ("/apart" if nd.get("apart") else "") + ("/2ifaces" if nd.get("second_iface") else "") + ("/helper" if nd.get("helper") else ""), ",".join(map(str, nd["deps"]))) for nd in N) + \
         " layout=%d files=%d" % (cfg["set_layout"], cfg["nfiles"]) + \
         ("" if cfg.get("second") is None else " second=%d%s" % (cfg["second"], "(first)" if cfg.get("second_first") else ""))
 
@@ -311,6 +317,9 @@ def encode(cfg, root=0):
             f = "%d i%d :" % (7000 + i, i); items.append("f " + f); pkg.append(f); parts.append(part(i))
         elif k == "struct":
             items.append("s %d : %s" % (i, " ".join(ty(N[d]) for d in nd["deps"]))); parts.append(part(i))
+            if nd.get("helper") and cfg.get("set_layout", 0) != 0 and not root:
+                f = "%d p%d : v%d" % (9000 + i, 900 + i, i)
+                items.append("f " + f); pkg.append(f); parts.append(part(i))
         elif k == "arg":
             args.append("p%d" % i)
     for c in cfg["cfgs"]:
